@@ -23,6 +23,7 @@ type DartHelper struct {
 	Name      string `json:"name"`
 	NullGuard bool   `json:"nullguard"` // the body tests `json == null`
 	Delegates string `json:"delegates"` // `return <other>FromJson(json);` : the routine everything is delegated to
+	KeyConv   string `json:"keyconv"`   // map routines: how the JSON key k becomes the Dart key: parse | cast | enumparse | enumstr | other | ""
 }
 
 type DartCase struct {
@@ -286,6 +287,39 @@ func ParseDart(name, src string) (*DartFile, error) {
 			}
 			if body[b].V == "json" && body[b+1].V == "=" && b+3 < len(body) && body[b+2].V == "=" && body[b+3].V == "null" {
 				h.NullGuard = true
+			}
+		}
+		// MapEntry( <key conversion> , ...
+		for b := 0; b+2 < len(body); b++ {
+			if body[b].V == "MapEntry" && body[b+1].V == "(" {
+				e := b + 2
+				depth := 0
+				for e < len(body) && !(depth == 0 && body[e].V == ",") {
+					if body[e].V == "(" {
+						depth++
+					} else if body[e].V == ")" {
+						depth--
+					}
+					e++
+				}
+				var parts []string
+				for _, t := range body[b+2 : e] {
+					parts = append(parts, t.V)
+				}
+				conv := strings.Join(parts, " ")
+				switch {
+				case conv == "int . parse ( k )":
+					h.KeyConv = "parse"
+				case strings.HasPrefix(conv, "k as "):
+					h.KeyConv = "cast"
+				case strings.HasSuffix(conv, "FromJson ( int . parse ( k ) )"):
+					h.KeyConv = "enumparse"
+				case strings.HasSuffix(conv, "FromJson ( k )"):
+					h.KeyConv = "enumstr"
+				default:
+					h.KeyConv = "other"
+				}
+				break
 			}
 		}
 		// { return xFromJson ( json ) ; }
